@@ -4,7 +4,8 @@
              per-channel engines, Chan/Index.lean = the (de)interleave index maps of data-io.c / rint-clip.h):
              index bijection / round trips / pull-loop pointer advance for all ch, n; multi_equals_mono_partial for EVERY call
              sequence, channel count, layout combination, count-abstractable engine, seed-free conversion; its negation for
-             dithered int16 output (F17); clips = sum of per-channel clips; both-split path == generic path.
+             dithered int16 output (F17); multi_equals_mono_view / channel_data_isolation for ANY
+             conversion with a data-independent seed advance (dither included); clips = sum of per-channel clips; both-split path == generic path.
              lean/SoxrModel/Properties/C06Threads.lean (area conc): atomic clip sum under every interleaving, lost-update
              witness for the pinned non-atomic `p->clips +=` (F8).
   tie        harness/chan/api.c plugs a toy per-channel engine (C) under the REAL soxr.c + data-io.c through control_block; the
